@@ -8,6 +8,8 @@ Helper lemmas: HypnoModel/Lemmas/Distance.lean.  This file: property theorems on
 -/
 import HypnoModel.Model.Distance
 import HypnoModel.Lemmas.Distance
+import HypnoModel.Model.Stencil
+import HypnoModel.Lemmas.Stencil
 
 namespace HypnoModel.Props.C06
 open Distance DistanceLemmas
@@ -113,5 +115,259 @@ example : cumtrapz ([0, 1, 3] : List ℝ) [1, 2, 1] = [0, 3 / 2, 9 / 2] := by
 example : ∃ (x0 y0 : List ℝ) (s0 : ℕ) (rest : List (List ℝ × List ℝ)), x0 ≠ [] ∧ (∀ p ∈ rest, p.1 ≠ []) ∧
     0 + 1 < (zregs x0 y0 s0 rest).length :=
   ⟨[0, 1, 3], [1, 2, 1], 1, [([0, 2], [1, 1])], by simp, by simp, by simp [zregs]⟩
+
+/-! ## 5. the grid spacing dx at the cell centres and at the x-faces, and the DDX stencils that divide by it
+
+Model: HypnoModel/Model/Stencil.lean (`MeshRegion.geometry1`, `MeshRegion.DDX`) at α := ℝ — one radial line of one region
+with nx cells: `psi = (List.range (2*nx+1)).map P` (even index = x-face, odd index = cell centre; by `psi_as_function`
+every list of that length is of this form), `inner` / `outer` = psi at the adjacent cell centre of the inner / outer
+neighbour region (`none` at a boundary of the grid).  A field affine in psi, `F x = a + b·x`, has face values
+`(evens psi).map F`, centre values `(odds psi).map F` and neighbour values `inner.map F`, `outer.map F`.
+Helper lemmas: HypnoModel/Lemmas/Stencil.lean. -/
+
+section StencilSection
+open Stencil StencilLemmas
+
+/-- every psi list with 2·nx+1 entries is `(List.range (2*nx+1)).map P` for its own index function -/
+theorem psi_as_function (nx : ℕ) (psi : List ℝ) (h : psi.length = 2 * nx + 1) :
+    psi = (List.range (2 * nx + 1)).map (fun k => psi.getD k 0) :=
+  eq_map_range_getD psi _ h
+
+/-- `dx.centre`: one value per cell, face to face -/
+theorem dxCentre_spec (nx : ℕ) (P : ℕ → ℝ) (psi : List ℝ) (hpsi : psi = (List.range (2 * nx + 1)).map P) :
+    (dxCentre psi).length = nx ∧ ∀ i < nx, (dxCentre psi)[i]? = some (P (2 * i + 2) - P (2 * i)) := by
+  subst hpsi
+  rw [dxCentre_eq]
+  refine ⟨by simp, fun i hi => ?_⟩
+  rw [List.getElem?_map, List.getElem?_range hi]
+  rfl
+
+/-- `dx.xlow`: one value per x-face, centre to centre — across the region boundary with a neighbour, twice the half cell
+    at a boundary of the grid -/
+theorem dxFaces_spec (nx : ℕ) (hnx : 1 ≤ nx) (P : ℕ → ℝ) (psi : List ℝ) (hpsi : psi = (List.range (2 * nx + 1)).map P)
+    (inner outer : Option ℝ) :
+    (dxFaces psi inner outer).length = nx + 1 ∧
+    (∀ pi, inner = some pi → (dxFaces psi inner outer)[0]? = some (P 1 - pi)) ∧
+    (inner = none → (dxFaces psi inner outer)[0]? = some (2 * (P 1 - P 0))) ∧
+    (∀ i, 1 ≤ i → i < nx → (dxFaces psi inner outer)[i]? = some (P (2 * i + 1) - P (2 * i - 1))) ∧
+    (∀ po, outer = some po → (dxFaces psi inner outer)[nx]? = some (po - P (2 * nx - 1))) ∧
+    (outer = none → (dxFaces psi inner outer)[nx]? = some (2 * (P (2 * nx) - P (2 * nx - 1)))) := by
+  obtain ⟨m, rfl⟩ : ∃ m, nx = m + 1 := ⟨nx - 1, by omega⟩
+  subst hpsi
+  have hlast : 2 * (m + 1) - 1 = 2 * m + 1 := by omega
+  rw [dxFaces_eq, hlast]
+  obtain ⟨h0, h1, h2, h3⟩ := getElem?_cons_map_append
+    (match inner with
+      | some pi => P 1 - pi
+      | none => 2 * (P 1 - P 0))
+    (match outer with
+      | some po => po - P (2 * m + 1)
+      | none => 2 * (P (2 * (m + 1)) - P (2 * m + 1)))
+    (fun i => P (2 * (i + 1) + 1) - P (2 * i + 1)) m
+  refine ⟨h0, ?_, ?_, ?_, ?_, ?_⟩
+  · rintro pi rfl
+    exact h1
+  · rintro rfl
+    exact h1
+  · intro i hi1 hi2
+    obtain ⟨j, rfl⟩ : ∃ j, i = j + 1 := ⟨i - 1, by omega⟩
+    have e : 2 * (j + 1) - 1 = 2 * j + 1 := by omega
+    rw [e]
+    exact h2 j (by omega)
+  · rintro po rfl
+    exact h3
+  · rintro rfl
+    exact h3
+
+/-- `DDX(F).centre` is exact for F affine in psi: every entry is the slope b — provided no cell has zero width -/
+theorem ddxCentre_affine_exact (nx : ℕ) (P : ℕ → ℝ) (psi : List ℝ) (hpsi : psi = (List.range (2 * nx + 1)).map P)
+    (a b : ℝ) (hP : ∀ i < nx, P (2 * i + 2) ≠ P (2 * i)) :
+    ddxCentre ((evens psi).map fun x => a + b * x) (dxCentre psi) = List.replicate nx b := by
+  subst hpsi
+  rw [ddxCentre_affine_eq, map_range_eq_replicate]
+  exact fun i hi => ite_zero_eq b _ (hP i hi)
+
+/-- … and for b ≠ 0 that hypothesis is necessary: a zero-width cell gives the entry 0 -/
+theorem ddxCentre_affine_exact_iff (nx : ℕ) (P : ℕ → ℝ) (psi : List ℝ) (hpsi : psi = (List.range (2 * nx + 1)).map P)
+    (a b : ℝ) (hb : b ≠ 0) :
+    ddxCentre ((evens psi).map fun x => a + b * x) (dxCentre psi) = List.replicate nx b ↔
+      ∀ i < nx, P (2 * i + 2) ≠ P (2 * i) := by
+  subst hpsi
+  rw [ddxCentre_affine_eq, map_range_eq_replicate]
+  exact forall₂_congr fun i _ => ite_zero_eq_iff b hb _
+
+/-- `DDX(F).xlow` is exact for F affine in psi, in all four combinations of neighbour / no neighbour: each of the nx+1
+    entries is the slope b — provided the psi differences that `dx.xlow` consists of are non-zero.  This is the statement
+    that `dx.xlow` is the spacing the x-face stencil of DDX assumes. -/
+theorem ddxXlow_affine_exact (nx : ℕ) (hnx : 1 ≤ nx) (P : ℕ → ℝ) (psi : List ℝ)
+    (hpsi : psi = (List.range (2 * nx + 1)).map P) (a b : ℝ) (inner outer : Option ℝ)
+    (hin : ∀ pi, inner = some pi → pi ≠ P 1) (hin0 : inner = none → P 0 ≠ P 1)
+    (hmid : ∀ i, 1 ≤ i → i < nx → P (2 * i + 1) ≠ P (2 * i - 1))
+    (hout : ∀ po, outer = some po → po ≠ P (2 * nx - 1)) (hout0 : outer = none → P (2 * nx) ≠ P (2 * nx - 1)) :
+    ddxXlow ((odds psi).map fun x => a + b * x) ((evens psi).map fun x => a + b * x) (dxFaces psi inner outer)
+      (inner.map fun x => a + b * x) (outer.map fun x => a + b * x) = List.replicate (nx + 1) b := by
+  obtain ⟨m, rfl⟩ : ∃ m, nx = m + 1 := ⟨nx - 1, by omega⟩
+  subst hpsi
+  have hlast : 2 * (m + 1) - 1 = 2 * m + 1 := by omega
+  rw [hlast] at hout hout0
+  rw [ddxXlow_affine_eq, cons_map_append_eq_replicate]
+  refine ⟨?_, fun i hi => ite_zero_eq b _ ?_, ?_⟩
+  · cases inner with
+    | some pi => exact ite_zero_eq b _ (fun h => hin pi rfl h.symm)
+    | none => exact ite_zero_eq b _ (fun h => hin0 rfl h.symm)
+  · have := hmid (i + 1) (by omega) (by omega)
+    rwa [show 2 * (i + 1) - 1 = 2 * i + 1 by omega] at this
+  · cases outer with
+    | some po => exact ite_zero_eq b _ (hout po rfl)
+    | none => exact ite_zero_eq b _ (hout0 rfl)
+
+/-- … and for b ≠ 0 those hypotheses are necessary: they are exactly "no entry of `dx.xlow` is 0" -/
+theorem ddxXlow_affine_exact_iff (nx : ℕ) (hnx : 1 ≤ nx) (P : ℕ → ℝ) (psi : List ℝ)
+    (hpsi : psi = (List.range (2 * nx + 1)).map P) (a b : ℝ) (hb : b ≠ 0) (inner outer : Option ℝ) :
+    ddxXlow ((odds psi).map fun x => a + b * x) ((evens psi).map fun x => a + b * x) (dxFaces psi inner outer)
+      (inner.map fun x => a + b * x) (outer.map fun x => a + b * x) = List.replicate (nx + 1) b ↔
+    ((∀ pi, inner = some pi → pi ≠ P 1) ∧ (inner = none → P 0 ≠ P 1) ∧
+      (∀ i, 1 ≤ i → i < nx → P (2 * i + 1) ≠ P (2 * i - 1)) ∧
+      (∀ po, outer = some po → po ≠ P (2 * nx - 1)) ∧ (outer = none → P (2 * nx) ≠ P (2 * nx - 1))) := by
+  constructor
+  · intro h
+    obtain ⟨m, rfl⟩ : ∃ m, nx = m + 1 := ⟨nx - 1, by omega⟩
+    subst hpsi
+    have hlast : 2 * (m + 1) - 1 = 2 * m + 1 := by omega
+    rw [ddxXlow_affine_eq, cons_map_append_eq_replicate] at h
+    obtain ⟨h1, h2, h3⟩ := h
+    rw [hlast]
+    refine ⟨?_, ?_, ?_, ?_, ?_⟩
+    · rintro pi rfl
+      exact fun e => (ite_zero_eq_iff b hb _).mp h1 e.symm
+    · rintro rfl
+      exact fun e => (ite_zero_eq_iff b hb _).mp h1 e.symm
+    · intro i hi1 hi2
+      obtain ⟨j, rfl⟩ : ∃ j, i = j + 1 := ⟨i - 1, by omega⟩
+      rw [show 2 * (j + 1) - 1 = 2 * j + 1 by omega]
+      exact (ite_zero_eq_iff b hb _).mp (h2 j (by omega))
+    · rintro po rfl
+      exact (ite_zero_eq_iff b hb _).mp h3
+    · rintro rfl
+      exact (ite_zero_eq_iff b hb _).mp h3
+  · rintro ⟨h1, h2, h3, h4, h5⟩
+    exact ddxXlow_affine_exact nx hnx P psi hpsi a b inner outer h1 h2 h3 h4 h5
+
+/-- psi strictly monotone along the line (increasing or decreasing — both signs of the poloidal field occur) -/
+def StrictlyMonotoneLine (nx : ℕ) (P : ℕ → ℝ) : Prop :=
+  (∀ k < 2 * nx, P k < P (k + 1)) ∨ (∀ k < 2 * nx, P (k + 1) < P k)
+
+theorem ddxCentre_affine_exact_of_monotone (nx : ℕ) (P : ℕ → ℝ) (psi : List ℝ)
+    (hpsi : psi = (List.range (2 * nx + 1)).map P) (a b : ℝ) (hP : StrictlyMonotoneLine nx P) :
+    ddxCentre ((evens psi).map fun x => a + b * x) (dxCentre psi) = List.replicate nx b := by
+  apply ddxCentre_affine_exact nx P psi hpsi a b
+  intro i hi
+  rcases hP with h | h
+  · exact ne_of_gt (lt_trans (h (2 * i) (by omega)) (h (2 * i + 1) (by omega)))
+  · exact ne_of_lt (lt_trans (h (2 * i + 1) (by omega)) (h (2 * i) (by omega)))
+
+theorem ddxXlow_affine_exact_of_monotone (nx : ℕ) (hnx : 1 ≤ nx) (P : ℕ → ℝ) (psi : List ℝ)
+    (hpsi : psi = (List.range (2 * nx + 1)).map P) (a b : ℝ) (hP : StrictlyMonotoneLine nx P) (inner outer : Option ℝ)
+    (hin : ∀ pi, inner = some pi → pi ≠ P 1) (hout : ∀ po, outer = some po → po ≠ P (2 * nx - 1)) :
+    ddxXlow ((odds psi).map fun x => a + b * x) ((evens psi).map fun x => a + b * x) (dxFaces psi inner outer)
+      (inner.map fun x => a + b * x) (outer.map fun x => a + b * x) = List.replicate (nx + 1) b := by
+  apply ddxXlow_affine_exact nx hnx P psi hpsi a b inner outer hin _ _ hout
+  · intro _
+    have e : 2 * nx = 2 * nx - 1 + 1 := by omega
+    rw [e, Nat.add_sub_cancel]
+    rcases hP with h | h
+    · exact ne_of_gt (h (2 * nx - 1) (by omega))
+    · exact ne_of_lt (h (2 * nx - 1) (by omega))
+  · intro _
+    rcases hP with h | h
+    · exact ne_of_lt (h 0 (by omega))
+    · exact ne_of_gt (h 0 (by omega))
+  · intro i hi1 hi2
+    obtain ⟨j, rfl⟩ : ∃ j, i = j + 1 := ⟨i - 1, by omega⟩
+    rw [show 2 * (j + 1) - 1 = 2 * j + 1 by omega, show 2 * (j + 1) + 1 = 2 * j + 1 + 1 + 1 by omega]
+    rcases hP with h | h
+    · exact ne_of_gt (lt_trans (h (2 * j + 1) (by omega)) (h (2 * j + 1 + 1) (by omega)))
+    · exact ne_of_lt (lt_trans (h (2 * j + 1 + 1) (by omega)) (h (2 * j + 1) (by omega)))
+
+/-- the state before the repair that introduced dx at the x-faces: `dx.xlow` all zeros.  Then every entry of `DDX(f).xlow`
+    is 0 (over ℝ division by zero gives 0; in floating point inf or nan), whatever the field — so for F = a + b·psi with
+    b ≠ 0 no entry is the slope b: `ddxXlow_affine_exact` fails for that `dx.xlow`. -/
+theorem ddxXlow_zero_dx_counterexample (nx : ℕ) (hnx : 1 ≤ nx) (fc fx : List ℝ) (hfc : fc.length = nx)
+    (fInner fOuter : Option ℝ) (b : ℝ) (hb : b ≠ 0) :
+    ddxXlow fc fx (List.replicate (nx + 1) 0) fInner fOuter = List.replicate (nx + 1) 0 ∧
+    (∀ x ∈ ddxXlow fc fx (List.replicate (nx + 1) 0) fInner fOuter, x ≠ b) ∧
+    ddxXlow fc fx (List.replicate (nx + 1) 0) fInner fOuter ≠ List.replicate (nx + 1) b := by
+  obtain ⟨m, rfl⟩ : ∃ m, nx = m + 1 := ⟨nx - 1, by omega⟩
+  have h := ddxXlow_zero_dx fc fx m hfc fInner fOuter
+  refine ⟨h, ?_, ?_⟩
+  · rw [h]
+    intro x hx
+    rw [List.eq_of_mem_replicate hx]
+    exact hb.symm
+  · rw [h]
+    intro e
+    have := List.eq_of_mem_replicate (e ▸ (by simp : (0 : ℝ) ∈ List.replicate (m + 1 + 1) (0 : ℝ)))
+    exact hb this.symm
+
+/-- two radially adjacent regions A (inner) and B (outer) on one line, A's last face = B's first face: the shared face gets
+    the same dx from both sides (A's last entry with B's first centre as outer neighbour, B's first entry with A's last
+    centre as inner neighbour) — the sum of the two half cells adjacent to it -/
+theorem dxFaces_consistent_across_boundary (nxA nxB : ℕ) (hA : 1 ≤ nxA) (hB : 1 ≤ nxB) (PA PB : ℕ → ℝ)
+    (psiA psiB : List ℝ) (hpsiA : psiA = (List.range (2 * nxA + 1)).map PA)
+    (hpsiB : psiB = (List.range (2 * nxB + 1)).map PB) (hshared : PA (2 * nxA) = PB 0) (innerA outerB : Option ℝ) :
+    (dxFaces psiA innerA (some (PB 1)))[nxA]? = (dxFaces psiB (some (PA (2 * nxA - 1))) outerB)[0]? ∧
+    (dxFaces psiA innerA (some (PB 1)))[nxA]? = some (PB 1 - PA (2 * nxA - 1)) ∧
+    PB 1 - PA (2 * nxA - 1) = (PA (2 * nxA) - PA (2 * nxA - 1)) + (PB 1 - PB 0) := by
+  have hAl := (dxFaces_spec nxA hA PA psiA hpsiA innerA (some (PB 1))).2.2.2.2.1 (PB 1) rfl
+  have hBf := (dxFaces_spec nxB hB PB psiB hpsiB (some (PA (2 * nxA - 1))) outerB).2.1 (PA (2 * nxA - 1)) rfl
+  refine ⟨by rw [hAl, hBf], hAl, ?_⟩
+  rw [hshared]
+  ring
+
+/-! ### concrete lines -/
+
+/-- nx = 2, psi = 0 1 2 4 6 (faces 0 2 6, centres 1 4) -/
+example : dxCentre ([0, 1, 2, 4, 6] : List ℝ) = [2, 4] := by
+  norm_num [dxCentre, evens, diffs]
+
+example : dxFaces ([0, 1, 2, 4, 6] : List ℝ) none none = [2, 3, 4] := by
+  norm_num [dxFaces, odds, diffs]
+
+example : dxFaces ([0, 1, 2, 4, 6] : List ℝ) (some (-1)) (some 9) = [2, 3, 5] := by
+  norm_num [dxFaces, odds, diffs]
+
+/-- F = 1 + 2·psi on that line: fc = 3 9, fx = 1 5 13; slope 2 everywhere, with and without neighbours -/
+example : ddxCentre ([1, 5, 13] : List ℝ) [2, 4] = [2, 2] := by
+  norm_num [ddxCentre, diffs, zipDiv]
+
+example : ddxXlow ([3, 9] : List ℝ) [1, 5, 13] [2, 3, 4] none none = [2, 2, 2] := by
+  norm_num [ddxXlow, diffs, zipDiv]
+
+example : ddxXlow ([3, 9] : List ℝ) [1, 5, 13] [2, 3, 5] (some (-1)) (some 19) = [2, 2, 2] := by
+  norm_num [ddxXlow, diffs, zipDiv]
+
+/-- the same field with the pre-repair `dx.xlow = 0`: every entry 0, not 2 -/
+example : ddxXlow ([3, 9] : List ℝ) [1, 5, 13] [0, 0, 0] none none = [0, 0, 0] := by
+  norm_num [ddxXlow, diffs, zipDiv]
+
+/-- the hypotheses of `ddxXlow_affine_exact_of_monotone` / `dxFaces_consistent_across_boundary` are satisfiable:
+    P k = k (increasing) and P k = -k (decreasing), neighbours one cell further out -/
+example : StrictlyMonotoneLine 2 (fun k => (k : ℝ)) ∧ StrictlyMonotoneLine 2 (fun k => -(k : ℝ)) ∧
+    (∀ pi, some (-1 : ℝ) = some pi → pi ≠ (fun k : ℕ => (k : ℝ)) 1) ∧
+    (∀ po, some (5 : ℝ) = some po → po ≠ (fun k : ℕ => (k : ℝ)) (2 * 2 - 1)) := by
+  refine ⟨Or.inl fun k _ => by simp, Or.inr fun k _ => by simp, ?_, ?_⟩
+  · intro pi h
+    rw [← Option.some.inj h]
+    norm_num
+  · intro po h
+    rw [← Option.some.inj h]
+    norm_num
+
+/-- two adjacent regions: A = 0 1 2 4 6, B = 6 7 8 (shared face psi = 6): dx at the shared face is 7 - 4 = 3 from both sides -/
+example : (dxFaces ([0, 1, 2, 4, 6] : List ℝ) none (some 7))[2]? = some 3 ∧
+    (dxFaces ([6, 7, 8] : List ℝ) (some 4) none)[0]? = some 3 := by
+  norm_num [dxFaces, odds, diffs]
+
+end StencilSection
 
 end HypnoModel.Props.C06
